@@ -15,7 +15,7 @@ MANIFEST = {
     "text": "Coq theorems about hand-written Gallina models of compat.text_repr (with Python's str/bytes repr and "
             "literal evaluation) and of assertThat/expectThat/_matchHelper/addDetailUniqueName: the literal "
             "evaluator gives back the original text for every str/bytes and every multiline setting (proved for "
-            "repr and for the per-character formulation of the multiline branch); for every test program (setUp, test "
+            "the literal transliteration of text_repr, which is proved equal to a per-character formulation); for every test program (setUp, test "
             "method, tearDown, cleanups, each a sequence of assertThat/expectThat/assert_that and raise statements): "
             "assertions raise iff the matcher mismatches, expectThat never raises and forces a failure after the test "
             "has finished whatever the test raises before or afterwards (skip, expected failure, unexpected success, "
@@ -26,9 +26,8 @@ MANIFEST = {
     "note": "PARTIAL: (1) 'describe() never raises for any matchee' for leaves built on repr/pformat/% of arbitrary "
             "user objects is not expressible in the model; str/describe/get_details/MismatchError are validated by "
             "sampling over every exported matcher (a name without a harness entry is reported as unmodelled). "
-            "(2) the round trip is proved for the per-character model text_repr_tok; its equality with the literal "
-            "transliteration text_repr_lit is checked by the correspondence on every case, not proved "
-            "(C07_text_repr_roundtrip_partial). Trusted: Coq kernel + vm_compute, the harness, "
+            "(2) known finding F21: an expectThat that mismatches in a setUp that then raises (or in a cleanup run "
+            "after setUp raised) does not fail the test; C07_holds is proved outside Spec.C07.finding_F21. Trusted: Coq kernel + vm_compute, the harness, "
             "unicodedata categories as the isprintable oracle.",
     "technique": "Coq proof (induction over characters, pigeonhole for the unique-name loop) + model/implementation "
                  "correspondence in coqc + sampling of every exported matcher",
@@ -216,10 +215,37 @@ def kind_of(f):
     return "O"
 
 
-def describe_all(m, v, annotate):
+MESSAGE = "message caf\xe9 \n'"
+
+
+def assertions_on(m, v, message):
+    """the three entry points on a stock matcher: did assertThat / assert_that / expectThat raise MismatchError,
+    and was the test (which catches the MismatchErrors itself) reported as a failure, i.e. by expectThat"""
+    import testtools
+    from testtools.assertions import assert_that
+    from testtools.matchers import MismatchError
+    from testtools.testresult.doubles import ExtendedTestResult
+    out = []
+
+    class T(testtools.TestCase):
+        def test_x(self):
+            for f in (self.assertThat, assert_that, self.expectThat):
+                try:
+                    f(v, m, message)
+                    out.append(False)
+                except MismatchError:
+                    out.append(True)
+
+    res = ExtendedTestResult()
+    T("test_x").run(res)
+    outs = [e[0] for e in res._events if e[0].startswith("add")]
+    return out + [outs == ["addFailure"]]
+
+
+def describe_all(m0, v, annotate):
     from testtools.matchers import Annotate, MismatchError
-    if annotate:
-        m = Annotate.if_message("message caf\xe9 \n'", m)
+    message = MESSAGE if annotate else ""
+    m = Annotate.if_message(message, m0)
     kinds = [kind_of(lambda: str(m))]
     mismatch = m.match(v)
     if mismatch is not None:
@@ -227,7 +253,7 @@ def describe_all(m, v, annotate):
         kinds.append(kind_of(mismatch.get_details))
         kinds.append(kind_of(lambda: str(MismatchError(v, m, mismatch, False))))
         kinds.append(kind_of(lambda: str(MismatchError(v, m, mismatch, True))))
-    return {"kinds": kinds, "hm": mismatch is not None}
+    return {"kinds": kinds, "hm": mismatch is not None, "asserts": assertions_on(m0, v, message)}
 
 
 # ---------------------------------------------------------------------------
@@ -261,7 +287,7 @@ def drive_desc(case):
             return describe_all(c06.mk_matcher(case["m"], ctx), c06.mk_val(case["v"], ctx), case["ann"])
         table = harness_table()
         if case["name"] not in table:
-            return {"kinds": [], "hm": False, "unmodelled": True}
+            return {"kinds": [], "hm": False, "asserts": [], "unmodelled": True}
         mk, vals = table[case["name"]][case["variant"]]
         return describe_all(mk(), vals[case["value"]], case["ann"])
     finally:
@@ -450,7 +476,8 @@ def term(case, o):
         return q.pair(i, "(ORepr %s %s)" % (t_cps(o["out"]), q.boolean(o["eb"])))
     if k in ("desc", "dexpr"):
         i = "(IDesc %s %s %s)" % (q.nat(case.get("id", 900)), q.boolean(not o.get("unmodelled", False)), q.boolean(o["hm"]))
-        return q.pair(i, "(ODesc %s)" % q.lst([t_kind(x) for x in o["kinds"]]))
+        return q.pair(i, "(ODesc %s %s)" % (q.lst([t_kind(x) for x in o["kinds"]]),
+                                            q.lst([q.boolean(b) for b in o["asserts"]])))
     i = "(ITest %s)" % q.record([("p_pre", q.lst([t_detail(d) for d in case["pre"]])),
                                  ("p_setup", t_steps(case["setup"])), ("p_body", t_steps(case["body"])),
                                  ("p_teardown", t_steps(case["teardown"])),
